@@ -57,7 +57,13 @@ def f6_cache_renumbering(mod, plan, viol):
         return False
     if thr is None:
         thr = 8192
-    if stream is None or not _drop_inside_definite(stream, thr, limit):
+    observed = viol.get('detail', {}).get('cache_drops_inside_definite_frame')
+    if observed is not None:
+        # exact: the failing execution itself saw the wrapper drop and renumber its cache
+        # while a definite-length decoding frame was holding absolute positions
+        if not observed:
+            return False
+    elif stream is None or not _drop_inside_definite(stream, thr, limit):
         return False
     res = mod.execute(p2)
     if res['status'] != 'violation':
